@@ -11,6 +11,7 @@ import (
 	"os"
 	"strconv"
 	"strings"
+	"time"
 
 	"verif/harness/run"
 )
@@ -365,13 +366,38 @@ func cmdMulti(args []string) {
 		pf, _ = os.Create(*progress)
 	}
 	n := 0
+	troubled := 0
 	eachBehaviour(*in, func(i int, b run.M) {
 		if pf != nil {
 			pf.Seek(0, 0)
 			fmt.Fprintf(pf, "%-12d\n", i)
 		}
+		if troubled >= 3 {
+			return // the run has degenerated (every step waits for its timeout): what was recorded so far is judged
+		}
 		rng := rand.New(rand.NewSource(*seed*1000003 + int64(i+*seedIndex)))
-		traces, err := run.PlayMulti(b, rng, run.Projections[*proj])
+		b["_i"] = i + *seedIndex
+		t0 := time.Now()
+		var traces [][]run.M
+		var err error
+		done := make(chan struct{})
+		go func() {
+			defer close(done)
+			traces, err = run.PlayMulti(b, rng, run.Projections[*proj])
+		}()
+		select {
+		case <-done:
+		case <-time.After(90 * time.Second):
+			// the execution never ends (a connection that is not served any more): recorded as such, and
+			// nothing further can be run in this process
+			tw.writeExec([]run.M{{"k": "cfg", "c": run.M{}}, {"k": "wedged"}}, i)
+			n++
+			troubled = 3
+			return
+		}
+		if time.Since(t0) > 8*time.Second {
+			troubled++
+		}
 		if err != nil {
 			die("schedule %d: %v", i, err)
 		}
